@@ -8,6 +8,7 @@ codec, a parameter of the theorems (`SelCodec`), compared here on every case.
 -/
 import DropshotModel.Proto
 import DropshotModel.Pagination
+import DropshotModel.Utf8
 
 open Dropshot Dropshot.Proto Dropshot.Json Dropshot.Pagination
 
@@ -308,8 +309,14 @@ def handle (line : String) : String :=
           | .ok _ => "ok"
           | .error e => tokErrLabel e
         -- spec: accepted, or refused cleanly; an over-long token is refused as such
+        -- ... and a token whose bytes are not UTF-8 text is not JSON text: never accepted
+        -- (decided with the Base64 and UTF-8 models alone, for tokens inside and outside the
+        -- JSON fragment the model reads)
+        let notText := match Base64.decode .urlSafe tok with
+          | some bytes => !Utf8.utf8Valid bytes
+          | none => false
         let specOk := match impl with
-          | ["ok", _] => tok.length ≤ 512
+          | ["ok", _] => tok.length ≤ 512 && !notText
           | ["err", c] => (tok.length > 512) == (c == "large")
           | _ => false
         if stream == "tok" then
